@@ -426,6 +426,9 @@ def cdrive(path, ops, cfg, fault=None):
     model = {}            # oracle: abstract map, maintained while every put is written through immediately
     exact = True          # False once a put was left in a buffer (oracle then only checks the final file)
     late = []             # gets of listed keys that failed because a buffered put failed late (known finding)
+    accepted = {}         # key -> bytes of the FIRST put of that key accepted inside a session (written or buffered): in an
+                          # insert-only map whose queues are flushed in order this is the one put that can succeed
+    tainted = set()       # keys put outside a session (outside the claim)
 
     def classify(e):
         if isinstance(e, UnsupportedOperation): return "(BErr BUnsupported)"
@@ -455,6 +458,10 @@ def cdrive(path, ops, cfg, fault=None):
                 listed_before = set(c.keys())
                 c[o[2]] = o[3].b
                 r = "BOk"
+                if cms[i] is None:
+                    tainted.add(o[2])
+                else:
+                    accepted.setdefault(o[2], o[3].b)
                 if be._write_queue:
                     exact = False
                 elif exact:
@@ -478,6 +485,10 @@ def cdrive(path, ops, cfg, fault=None):
                 r = "(BVal " + (cq_bytes(v) if len(v) <= 24 else _name_val(v)) + ")"
                 if exact and model.get(o[2]) != v:
                     viol.append(("C02:collection:wrong-bytes", f"get({o[2][:8]!r}) did not return the bytes of the one successful put"))
+                elif fault is None and o[2] in accepted and o[2] not in tainted and accepted[o[2]] != v:
+                    viol.append(("C02:collection:wrong-bytes:buffered",
+                                 f"get({o[2][:8]!r}) returned {len(v)} bytes that are not the bytes of the first accepted put of that key "
+                                 f"({len(accepted[o[2]])} bytes): the value of a later, doomed put was served"))
             elif k == "keys":
                 ks = sorted(c.keys())
                 r = "(BKeys [" + ";".join(cq_bytes(x.encode()) for x in ks) + "])"
